@@ -245,7 +245,72 @@ class PwmToMappingInit(Contract):
                 4: LoopSpec(lp), 5: LoopSpec(lp), 6: LoopSpec(lp), 7: LoopSpec(lp), 8: LoopSpec(lp), 9: LoopSpec(lp)}
 
 
+from vf.contract import FragmentContract
+
+
+class ScoreThreshold(FragmentContract):
+    """C12 (threshold of one motif, the body of the threshold loop of fimo()): _score_thresholds[i] is the
+    score (bin index + smallest[i]) * bin_size of the FIRST bin of the motif's table whose log p-value is
+    below log2(threshold) - every lower bin has a log p-value >= it - and +inf exactly when no bin
+    qualifies; only entry i of the threshold vector is written."""
+    qualname = 'tangermeme.tools.fimo.fimo'
+    props = ('C12',)
+    loop_ordinal = None
+    key = 'tangermeme.tools.fimo.fimo#threshold'
+    stmt_block = ('_score_to_pvals_lengths.append(len(_score_to_pvals[i]))', 3)
+
+    def scopes(self, cfg):
+        return [{'default': 3}, {'default': 1}, {'default': 4}]
+
+    def make_env(self, cfg, A):
+        from vf.values import StackList
+        M, W = A.dim('M', 1), A.dim('W', 1)
+        # the tables of the M motifs (here: equally long; their common length is arbitrary)
+        tables = A.tensor('tables', 2, 'real', lib='np', shape=[M, W])
+        i = A.int('i', lo=0)
+        A.assume(i < M)
+        thr = A.tensor('_score_thresholds', 1, 'real', lib='np', shape=[M])
+        smallest = A.tensor('_smallest', 1, 'int', lib='np', shape=[M])
+        return dict(_score_to_pvals=StackList(M, [tables]), tables=tables, _score_to_pvals_lengths=[0], i=i, log_threshold=A.real('log_threshold'),
+                    _score_thresholds=thr, _smallest=smallest, bin_size=A.real('bin_size'))
+
+    def post_env(self, b, a, outcome, cfg):
+        out = [('no-exception', not outcome.startswith('raise'))]
+        if not out[0][1]:
+            return out
+        i = b.i
+        if hasattr(b._score_to_pvals, 'views'):
+            V = b._score_to_pvals.views[0]
+            W, tab = V.shape[1], (lambda j: V.elem(i, j))
+        else:
+            row = b._score_to_pvals[int(i)]          # concrete interpretation: a list of vectors
+            W, tab = row.shape[0], (lambda j: row.elem(j))
+        thr0, thr = b._score_thresholds, a._score_thresholds
+        lt = b.log_threshold
+        some = O.exists_box([W], lambda j: tab(j) < lt)
+        first = lambda f: And(0 <= f, f < W, tab(f) < lt, O.forall([W], lambda j: Implies(j < f, tab(j) >= lt)))
+        f = O.fresh_int('f')
+        val = thr.elem(i)
+        out.append(('threshold-is-first-qualifying-bin', ite(some, O.exists_box([W], lambda f_: And(first(f_), O.eq(val, (f_ + b._smallest.elem(i)) * b.bin_size))),
+                                                            O.eq(val, O.PINF))))
+        out.append(('other-entries-untouched', O.forall([thr.shape[0]], lambda m: Implies(O.ne(m, i), O.eq(thr.elem(m), thr0.elem(m))))))
+        out.append(('length-recorded', isinstance(a._score_to_pvals_lengths, list) and len(a._score_to_pvals_lengths) == 2))
+        return out
+
+    def replay_fragment(self, cfg, st):
+        import numpy
+        from vf.contract import replay_fragment_generic
+        if st.get('tables') is None or st.get('_smallest') is None:
+            return []
+        tabs = [numpy.array([float(int(round(x)) % 11) - 5.0 for x in r], dtype='float64') for r in st['tables']]
+        M = len(tabs)
+        env = dict(_score_to_pvals=tabs, _score_to_pvals_lengths=[0], i=int(st['i']) % M, log_threshold=float(int(st.get('log_threshold', 0)) % 7 - 3),
+                   _score_thresholds=numpy.full(M, -123.0), _smallest=numpy.array([int(x) % 9 - 4 for x in st['_smallest']], dtype='int64'), bin_size=0.5)
+        return replay_fragment_generic(self._world, self, cfg, env)
+
+
 def register(world):
     world.register(FastHits())
     world.register(LogAddExp2())
     world.register(PwmToMappingInit())
+    world.register_fragment(ScoreThreshold())
